@@ -130,6 +130,8 @@ def scenario(ck, c, rnd, mjs, tight, scale):
             return bad('single-segment-changed', 'a single segment was not returned unchanged', repr(path), repr(sm))
         return True
     m = len(sm)
+    if any(w != w for sg in sm for w in sg.bpoints()):
+        return bad('not-a-number', 'the result has NaN control points: %r' % sm)
     for i in range(m - 1):
         if not (abs(sm[i].end - sm[i + 1].start) <= 1e-9 * size):
             return bad('not-continuous', 'pieces %d and %d do not join: %r vs %r' % (i, i + 1, sm[i].end, sm[i + 1].start))
@@ -260,6 +262,23 @@ def extra_families(ck, rnd, quick):
                     generic_check(ck, sp.Path(sp.CubicBezier(e, c2, b, b), sp.Line(b, a)), mjs * sc, tight, 'cubic with control2 == end -> line')
                     generic_check(ck, sp.Path(sp.CubicBezier(e, c2, b, b), sp.CubicBezier(b, b, 2 * b - c2 + sc * (3 + 1j), a)), mjs * sc, tight, 'cubic -> cubic, both handles at the joint of zero length')
 
+    # nothing is remembered from one call to the next: a call on a path with a 180-degree reversal (refused, or let through with ignore_unfixable_kinks) is followed
+    # by calls on ordinary paths
+    back = sp.Path(sp.Line(0j, 5 + 0j), sp.Line(5 + 0j, 2 + 0j), sp.Line(2 + 0j, 2 + 4j))
+    for kw in ({'ignore_unfixable_kinks': True},):          # (without the flag the library writes a picture of the offending path into the temporary directory and raises)
+        try:
+            sp.smoothed_path(back, maxjointsize=1, tightness=1.99, **kw)
+        except Exception:      # noqa  (the reversal itself is outside the property)
+            pass
+        generic_check(ck, sp.Path(sp.Line(0j, 6 + 0j), sp.Line(6 + 0j, 6 + 5j), sp.Line(6 + 5j, 1 + 7j)), 1.0, 1.99, 'ordinary polyline after a call on a path with a reversal (%s)' % (kw or 'refused'))
+    # coordinates of numpy types (what rotated / scaled / translated return), also with a zero-length handle at the kinked joint
+    import numpy as np
+    for tag_, pth in (('line -> cubic with control1 == start', sp.Path(sp.Line(0j, 6 + 0j), sp.CubicBezier(6 + 0j, 6 + 0j, 7 + 4j, 12 + 5j))),
+                      ('cubic with control2 == end -> line', sp.Path(sp.CubicBezier(12 + 5j, 7 + 4j, 6 + 0j, 6 + 0j), sp.Line(6 + 0j, 0j))),
+                      ('polyline', sp.Path(sp.Line(0j, 6 + 0j), sp.Line(6 + 0j, 6 + 5j), sp.Line(6 + 5j, 1 + 7j)))):
+        for how, f in (('rotated(30)', lambda q: q.rotated(30, origin=0j)), ('scaled(2)', lambda q: q.scaled(2)), ('translated', lambda q: q.translated(np.complex128(3 + 1j))),
+                       ('rebuilt from numpy scalars', lambda q: sp.Path(*[type(s_)(*[np.complex128(w) for w in s_.bpoints()]) for s_ in q]))):
+            generic_check(ck, f(pth), 1.0, 1.99, '%s, %s (numpy-typed coordinates)' % (tag_, how))
     # the same corners in other units and elsewhere (maxjointsize scaled along): large drawings (1e6), small ones (1e-4), map-like coordinates (offsets of 5e6)
     for sc, O in ((1e6, 0j), (1e-4, 0j), (1.0, 5e6 + 4e6j), (1.0, -3e7 + 1e6j), (1e3, 2e6 - 1e6j)):
         f = lambda z: O + sc * z      # noqa
